@@ -76,6 +76,8 @@ def run(chk, tier):
     db = D.load("checks")
     from ..rules import params as _PR
     _PR.check(chk, db, ['_algorithm/', '_numeric/'], floor=150)
+    from ..rules import iters as _ITX
+    _ITX.reverse_index_area(chk, db, ['_algorithm/', '_numeric/'])      # IT4i: downward index scans reach index 0
     funcs = [f for f in db.funcs if (f["file"].startswith("_algorithm/") or f["file"].startswith("_numeric/")) and f.get("kind") == "function"]
     n_scan = n_cursors = 0
     not_modelled = []
